@@ -48,6 +48,7 @@ o(op, h, g, n, s) == OpRec(op, "", 0, h, g, n, 0, s, <<>>, {})
 SeedHeapUnique  == << o("from_str", 1, 0, 0, A17) >>
 SeedHeapShared  == << o("from_str", 1, 0, 0, A17), o("clone", 2, 1, 0, <<>>) >>
 SeedHeapSharedT == << o("from_str", 1, 0, 0, M22), o("clone", 2, 1, 0, <<>>), o("truncate", 2, 0, 6, <<>>) >>   \* sibling shorter
+SeedHeapSharedM == << o("from_str", 1, 0, 0, M22), o("clone", 2, 1, 0, <<>>) >>                                 \* shared, every char width, equal lengths
 SeedHeapOver    == << o("with_capacity", 1, 0, 40, <<>>), o("push_str", 1, 0, 0, M22) >>                        \* cap 40, len 22
 SeedHeapOverSh  == SeedHeapOver \o << o("clone", 2, 1, 0, <<>>) >>
 SeedHeapShort   == << o("from_str", 1, 0, 0, A17), o("truncate", 1, 0, 3, <<>>) >>                              \* heap, len 3
@@ -58,10 +59,10 @@ SeedInline15    == << o("from_str", 1, 0, 0, A15) >>
 SeedInline16    == << o("from_str", 1, 0, 0, A15 \o <<112>>) >>
 SeedInline16m   == << o("from_str", 1, 0, 0, M16) >>
 SeedInlineMix   == << o("from_str", 1, 0, 0, <<97>> \o E2 \o U3 \o G4) >>
-cSeedsAll == { SeedHeapUnique, SeedHeapShared, SeedHeapSharedT, SeedHeapOver, SeedHeapOverSh, SeedHeapShort, SeedStatic,
+cSeedsAll == { SeedHeapUnique, SeedHeapShared, SeedHeapSharedT, SeedHeapSharedM, SeedHeapOver, SeedHeapOverSh, SeedHeapShort, SeedStatic,
                SeedStaticT, SeedStaticSh, SeedInline15, SeedInline16, SeedInline16m, SeedInlineMix, <<>> }
 cSeedsShared == { SeedHeapShared, SeedHeapSharedT, SeedHeapOverSh, SeedStaticSh }
-cSeedsIdx == { SeedHeapSharedT, SeedHeapOver, SeedStatic, SeedInline16m, SeedInlineMix,
+cSeedsIdx == { SeedHeapSharedT, SeedHeapSharedM, SeedHeapOver, SeedStatic, SeedInline16m, SeedInlineMix,
                << o("from_str", 1, 0, 0, M22) >>, << o("from_static", 1, 1, 0, <<>>), o("clone", 2, 1, 0, <<>>) >> }
 
 \* ---- C09 / C20: every possible final byte of a full (16-byte) inline text
